@@ -41,7 +41,10 @@ def gen_cases(tier, seed):
         chosen = [universe[i] for i in rng.choice(len(universe), size=320, replace=False)]
         listed = {f["key"].split("|", 1)[1] for f in hmain.load_known(ID) if f["key"].startswith("C03|")}
         have = {c["key"] for c in chosen}
-        chosen += [c for c in universe if c["key"] in listed and c["key"] not in have]
+        extra = [c for c in universe if c["key"] in listed and c["key"] not in have]
+        if len(extra) > 8:           # re-observe a sample of the listed cells
+            extra = [extra[i] for i in rng.choice(len(extra), size=8, replace=False)]
+        chosen += extra
     return [{"cell": c, "seed_class": sc, "k": 0} for c in chosen]
 
 
